@@ -288,6 +288,8 @@ def judge(p, events, meta, svc_name):
         if s is None:
             continue
         bump("operations_run")
+        bump(f"opcell:style={op.name.style}|keyword={op.name.has_keyword}|{'two-way' if m['two_way'] else 'one-way'}|headers-in={m['headers_in']}"
+             f"|headers-out={len(op.out_headers)}|parts-attr={m['parts_attr']}")
         # ---- C05: the serialized request envelope
         if not s["ok"]:
             p.finding("envelope-ser-error", op=op.name.xml, err=s.get("err"))
@@ -307,6 +309,7 @@ def judge(p, events, meta, svc_name):
                 continue
             bump("calls_observed")
             bump(f"scenario:{sid}")
+            bump(f"scencell:{sid}|{'two-way' if m['two_way'] else 'one-way'}|headers-in={min(m['headers_in'], 2)}")
             reqs = c["requests"]
             transport_fault = mode == 1
             ctx = {"op": op.name.xml, "scenario": sid, "status": status, "body": bodykey, "mode": mode, "result": c.get("result"),
